@@ -383,7 +383,13 @@ impl Image {
             let term_buffer = self.term_buffers[index as usize];
             let mut offset = initial_offset;
             let capacity = term_buffer.capacity() as i64;
-            let limit_offset = std::cmp::min(capacity, limit_position - initial_position + offset as i64) as i32;
+            // The bound is converted to a term offset. It may lie anywhere relative to the current position,
+            // so the difference is clamped into 0..=capacity before narrowing to 32 bits (a bound more than
+            // 2^31 below the position used to be truncated into a positive offset and fragments were delivered).
+            let limit_offset = limit_position
+                .saturating_sub(initial_position)
+                .saturating_add(offset as i64)
+                .clamp(0, capacity) as i32;
 
             self.header.set_buffer(term_buffer);
 
@@ -538,7 +544,11 @@ impl Image {
             let term_buffer = self.term_buffers[index as usize];
             let mut resulting_offset: Index = initial_offset;
             let capacity = term_buffer.capacity() as i64;
-            let end_offset: Index = min(capacity as i64, (max_position - initial_position) + initial_offset as i64) as Index;
+            // see bounded_poll: clamp before narrowing
+            let end_offset: Index = max_position
+                .saturating_sub(initial_position)
+                .saturating_add(initial_offset as i64)
+                .clamp(0, capacity) as Index;
 
             self.header.set_buffer(term_buffer);
 
